@@ -1,5 +1,7 @@
 import TenpyModel.C10.AlgProofs
 import TenpyModel.C10.TermsProofs
+import TenpyModel.C10.GraphProofs
+import TenpyModel.C10.BondProofs
 import TenpyModel.Ops.Model
 import TenpyModel.Ops.Bond
 /-!
@@ -25,20 +27,25 @@ theorem C10_terms_termlist_onsite {α : Type} [AddCommMonoid α] (L : Nat) (call
   rw [hL] at this
   exact this.trans hden
 
-/-- the nested dictionaries stay well formed under `add_coupling_term` with `i < j` -/
-theorem coupling_build_WF {α : Type} [AddCommMonoid α] (L : Nat)
-    (calls : List (α × Int × Int × String × String × String)) (hc : ∀ c ∈ calls, c.2.1 < c.2.2.1) :
+/-- the nested dictionaries stay well formed under `add_coupling_term` calls that satisfy `Q i j` -/
+theorem coupling_build_WFP {α : Type} [AddCommMonoid α] (Q : Int → Int → Prop) (L : Nat)
+    (calls : List (α × Int × Int × String × String × String)) (hc : ∀ c ∈ calls, Q c.2.1 c.2.2.1) :
     (calls.foldl (fun ct c => ct.add c.1 c.2.1 c.2.2.1 c.2.2.2.1 c.2.2.2.2.1 c.2.2.2.2.2)
-      (CouplingTerms.empty L)).WF' := by
-  suffices ∀ ct0 : CouplingTerms α, ct0.WF' →
-      (calls.foldl (fun ct c => ct.add c.1 c.2.1 c.2.2.1 c.2.2.2.1 c.2.2.2.2.1 c.2.2.2.2.2) ct0).WF' from
-    this _ (CouplingTerms.empty_WF' L)
+      (CouplingTerms.empty L)).WFP Q := by
+  suffices ∀ ct0 : CouplingTerms α, ct0.WFP Q →
+      (calls.foldl (fun ct c => ct.add c.1 c.2.1 c.2.2.1 c.2.2.2.1 c.2.2.2.2.1 c.2.2.2.2.2) ct0).WFP Q from
+    this _ (CouplingTerms.empty_WFP Q L)
   induction calls with
   | nil => intro ct0 h; exact h
   | cons c calls ih =>
     intro ct0 h
     exact ih (fun c' hc' => hc c' (List.mem_cons_of_mem _ hc')) _
-      (CouplingTerms.add_WF' ct0 h c.1 c.2.1 c.2.2.1 (hc c List.mem_cons_self) _ _ _)
+      (CouplingTerms.add_WFP Q ct0 h c.1 c.2.1 c.2.2.1 (hc c List.mem_cons_self) _ _ _)
+
+theorem coupling_build_WF {α : Type} [AddCommMonoid α] (L : Nat)
+    (calls : List (α × Int × Int × String × String × String)) (hc : ∀ c ∈ calls, c.2.1 < c.2.2.1) :
+    (calls.foldl (fun ct c => ct.add c.1 c.2.1 c.2.2.1 c.2.2.2.1 c.2.2.2.2.1 c.2.2.2.2.2)
+      (CouplingTerms.empty L)).WF' := coupling_build_WFP _ L calls hc
 
 /-- **CouplingTerms → TermList.**  For every sequence of
 `add_coupling_term(strength, i, j, op_i, op_j, op_string)` calls with `i < j`, `to_TermList()` of the
@@ -54,6 +61,69 @@ theorem C10_terms_termlist_coupling {α : Type} [AddCommMonoid α] (L : Nat)
   have := CouplingTerms.termlist_equiv _ (CouplingTerms.WF_of_WF' _ (coupling_build_WF L calls hc))
   rw [hL] at this
   exact this.trans hden
+
+/- **MPO graph = sum of terms**, full statement (for the imperative model of `MPOGraph.from_terms`):
+
+    theorem C10_graph_paths … :
+      Sym.Equiv (denoteGraph (Graph.fromTerms L false [.onsite ot, .coupling ct])) (Σ onsite calls ++ Σ coupling calls)
+
+What is proved below is this statement for the *closed form* `specLayers ot ct L` of the edge lists
+(`Ops/GraphSpec.lean`: per block `(i, op_i, op_str)` one opening edge, one string edge per site up to the
+largest `j`, one closing edge per entry; identity edges) — the part that carries the content: paths
+through states shared by all couplings with the same `(i, op_i, op_str)` enumerate every coupling exactly
+once with its strength.  Missing: the lemma that the layers built imperatively (`Graph.add` with
+`skip_existing`, `has_edge` in `add_string_left_to_right`, `add_missing_IdL_IdR`) are a permutation of
+`specLayers`; this is compared on every generated case by the driver (`spec_ok`), and the imperative
+edge lists are compared exactly with those of the implementation.  Multi-site couplings and
+exponentially decaying terms: denotation of the model graph vs the model term lists is compared on every
+case (`paths_ok`), no theorem yet. -/
+
+/-- **MPO graph paths (closed form).**  For every sequence of `add_onsite_term` calls (`i < L`) and
+`add_coupling_term` calls (`0 ≤ i < j < L`): the Σ over `IdL → IdR` paths of (product of strengths)·(operator
+string) of the MPO graph of the two containers is the sum of all added terms. -/
+theorem C10_graph_paths_partial {α : Type} [Semiring α] (L : Nat)
+    (ocalls : List (α × Nat × String)) (ccalls : List (α × Int × Int × String × String × String))
+    (ho : ∀ c ∈ ocalls, c.2.1 < L) (hc : ∀ c ∈ ccalls, 0 ≤ c.2.1 ∧ c.2.1 < c.2.2.1 ∧ c.2.2.1 < (L : Int)) :
+    Sym.Equiv
+      (pathsFrom Key.IdR
+        (specLayers (ocalls.foldl (fun ot c => ot.add c.1 c.2.1 c.2.2) (OnsiteTerms.empty L))
+          (ccalls.foldl (fun ct c => ct.add c.1 c.2.1 c.2.2.1 c.2.2.2.1 c.2.2.2.2.1 c.2.2.2.2.2)
+            (CouplingTerms.empty L)) L) Key.IdL)
+      (ocalls.map (fun c => (onsiteStr L c.2.1 c.2.2, c.1)) ++
+       ccalls.map (fun c => (couplingStr L c.2.1.toNat c.2.2.1.toNat c.2.2.2.1 c.2.2.2.2.2 c.2.2.2.2.1, c.1))) := by
+  obtain ⟨hwf, hL, hden⟩ := OnsiteTerms.build_denote L ocalls ho
+  obtain ⟨hcL, hcden⟩ := CouplingTerms.build_denote L ccalls
+  have hwfp := coupling_build_WFP (fun i j => 0 ≤ i ∧ i < j ∧ j < (L : Int)) L ccalls hc
+  have hyp := graphHyp_of_WFP _ _ L (hwf.len.trans hL) hwfp
+  exact (spec_denote _ _ L hL hcL hyp).trans (Sym.Equiv.append hden hcden)
+
+/-- **Bond form.**  For every sequence of `add_onsite_term` calls (`i < L`) and nearest-neighbour
+`add_coupling_term` calls (`0 ≤ i`, `j = i + 1 < L`) on a finite chain of `L ≥ 2` sites:
+`to_nn_bond_Arrays` succeeds and `Σ_j H_bond[j]` (after `add_to_nn_bond_Arrays` with the onsite terms
+split 1/2–1/2 in the bulk and put entirely on the single neighbouring bond at the two ends) is the sum of
+all added terms. -/
+theorem C10_bond_split {α : Type} [Semiring α] [DecidableEq α] (L : Nat) (hL : 2 ≤ L) (half : α)
+    (hh : half + half = 1) (h10 : (1 : α) ≠ 0) (hh0 : half ≠ 0)
+    (ocalls : List (α × Nat × String)) (ccalls : List (α × Int × Int × String × String × String))
+    (ho : ∀ c ∈ ocalls, c.2.1 < L)
+    (hc : ∀ c ∈ ccalls, 0 ≤ c.2.1 ∧ c.2.2.1 = c.2.1 + 1 ∧ c.2.2.1 < (L : Int)) :
+    let ot := ocalls.foldl (fun ot c => ot.add c.1 c.2.1 c.2.2) (OnsiteTerms.empty L)
+    let ct := ccalls.foldl (fun ct c => ct.add c.1 c.2.1 c.2.2.1 c.2.2.2.1 c.2.2.2.2.1 c.2.2.2.2.2)
+      (CouplingTerms.empty L)
+    ∃ b, ct.toNNBonds = some b ∧
+      Sym.Equiv (Bonds.denote L (ot.addToNNBonds half true b))
+        (ccalls.map (fun c => (couplingStr L c.2.1.toNat c.2.2.1.toNat c.2.2.2.1 c.2.2.2.2.2 c.2.2.2.2.1, c.1)) ++
+         ocalls.map (fun c => (onsiteStr L c.2.1 c.2.2, c.1))) := by
+  intro ot ct
+  obtain ⟨hwf, hotL, hden⟩ := OnsiteTerms.build_denote L ocalls ho
+  obtain ⟨hcL, hcden⟩ := CouplingTerms.build_denote L ccalls
+  have hwfp := coupling_build_WFP (fun i j => 0 ≤ i ∧ j = i + 1 ∧ j < (L : Int)) L ccalls hc
+  obtain ⟨b, hb1, hb2, hb3⟩ := coupling_bonds ct L hcL hwfp
+  refine ⟨b, hb1, ?_⟩
+  have hlen : ot.terms.length = ot.L := hwf.len
+  have := (onsite_bonds ot hlen (hotL ▸ hL) half hh h10 hh0 b (hb2.trans hotL.symm)).2
+  rw [hotL] at this
+  exact this.trans (Sym.Equiv.append (hb3.trans hcden) hden)
 
 /-- **Hermiticity.**  A sum of terms that is closed under the Hermitian conjugate (`T + T†`, what
 `plus_hc=True` produces) is a self-adjoint formal sum; `hc` is the name-wise conjugate of the sites
@@ -91,5 +161,27 @@ example : (([(2, 1, "Sz"), (3, 0, "Sx"), (5, 1, "Sz")] : List (Int × Nat × Str
 
 example : ((CouplingTerms.empty 4 : CouplingTerms Int).add 2 0 2 "Cd JW" "C" "JW").denote
     = [(["Cd JW", "JW", "C", "Id"], 0 + 2)] := by decide
+
+/-- two couplings sharing the state `('left', 0, 'A', 'S')` and one onsite term: three paths -/
+example :
+    let ot := (OnsiteTerms.empty 3 : OnsiteTerms Int).add 7 1 "Z"
+    let ct := ((CouplingTerms.empty 3 : CouplingTerms Int).add 2 0 1 "A" "B" "S").add 3 0 2 "A" "C" "S"
+    pathsFrom Key.IdR (specLayers ot ct 3) Key.IdL
+      = [(["A", "S", "C"], 3), (["A", "B", "Id"], 2), (["Id", "Z", "Id"], 7)] := by decide
+
+/-- the bond operators of a 3-site chain with one coupling and one bulk onsite term -/
+example :
+    let ot := (OnsiteTerms.empty 3 : OnsiteTerms Rat).add 4 1 "Z"
+    let ct := (CouplingTerms.empty 3 : CouplingTerms Rat).add 2 0 1 "A" "B" "Id"
+    (ct.toNNBonds.map (fun b => ot.addToNNBonds (1 / 2) true b))
+      = some [[], [(["A", "B"], 0 + 2), (["Id", "Z"], 1 / 2 * (0 + 4))], [(["Z", "Id"], 1 / 2 * (0 + 4))]] := by
+  decide +kernel
+
+/-- … and the imperative model of `MPOGraph.from_terms` builds the same edge lists up to order -/
+example :
+    let ot := (OnsiteTerms.empty 3 : OnsiteTerms Int).add 7 1 "Z"
+    let ct := ((CouplingTerms.empty 3 : CouplingTerms Int).add 2 0 1 "A" "B" "S").add 3 0 2 "A" "C" "S"
+    ((Graph.fromTerms 3 false [.onsite ot, .coupling ct]).layers.map (·.length))
+      = (specLayers ot ct 3).map (·.length) := by decide
 
 end examples
